@@ -307,6 +307,28 @@ theorem cli_gap_wrong_op_counterexample :
     posOf (renum gapSet2).offsets 4 = some 4 ∧ (renum gapSet2).flat[3]? = some ⟨4, "c", []⟩ := by
   decide +kernel
 
+/-- a third shape: no op was dropped, but the jump over the default part of a switch is numbered after the bodies and
+stands before them (offsets 1, 2, 5, 3, 4, 6).  Real compiler output for
+`def 0 { switch ($X) { case 1: a(); default: b(); } c(); }`. -/
+def oooSet : RoutineSet :=
+  ⟨[⟨.generic, 0, none⟩],
+   [[⟨1, "Switch", [.const "$X"]⟩, ⟨2, "Case", [.int 1, .int 3]⟩, ⟨5, "Jump", [.int 4]⟩, ⟨3, "a", []⟩, ⟨4, "b", []⟩,
+     ⟨6, "c", []⟩]], [none]⟩
+
+theorem cli_out_of_order_counterexample :
+    closedB oooSet = true ∧ positionalB oooSet = false ∧
+    (buildJson okSettings oooSet).bind readJson = .ok (renum oooSet) ∧
+    -- compiled: the jump (taken when no case matches) goes to the 5th op, `b`
+    posOf oooSet.offsets 4 = some 5 ∧ oooSet.flat[4]? = some ⟨4, "b", []⟩ ∧
+    -- read back: it goes to the 4th op, `a`
+    posOf (renum oooSet).offsets 4 = some 4 ∧ (renum oooSet).flat[3]? = some ⟨4, "a", []⟩ ∧
+    -- repaired: Case → 4 (`a`), Jump → 5 (`b`)
+    (buildJsonFixed okSettings oooSet).bind readJson =
+      .ok ⟨[⟨.generic, -1, none⟩],
+        [[⟨1, "Switch", [.const "$X"]⟩, ⟨2, "Case", [.int 1, .int 4]⟩, ⟨3, "Jump", [.int 5]⟩, ⟨4, "a", []⟩, ⟨5, "b", []⟩,
+          ⟨6, "c", []⟩]], [none]⟩ := by
+  decide +kernel
+
 /-! ## the proposed repair -/
 
 theorem remap_wf (c : RoutineSet) (h : Wf c) : Wf (remap c) := by
